@@ -16,6 +16,126 @@ use std::panic::{catch_unwind, AssertUnwindSafe};
 use std::str::pattern::{Pattern, ReverseSearcher, SearchStep, Searcher};
 use std::time::Instant;
 
+// ------------------------------------------------------------------ reference searcher
+//
+// A small executable reference model of the searcher: given the find_iter matches of the
+// regex on a haystack it emits the canonical tiling (forward) and the canonical reverse
+// tiling (matches last to first), with independent cursors. Running the *same* std consumer
+// once with `&Regex` and once with this pattern gives an exact model for every consumer,
+// including the reverse ones.
+
+#[derive(Clone)]
+struct ModelPat(Vec<(usize, usize)>);
+
+struct ModelSearcher<'a> {
+    h: &'a str,
+    f: Vec<(usize, usize)>,
+    // forward: next match index, covered frontier, done
+    fi: usize,
+    fpos: usize,
+    fdone: bool,
+    // backward: matches left (from the end), covered frontier (from the right), done
+    bi: usize,
+    bpos: usize,
+    bdone: bool,
+}
+
+impl Pattern for ModelPat {
+    type Searcher<'a> = ModelSearcher<'a>;
+    fn into_searcher(self, h: &str) -> ModelSearcher<'_> {
+        let n = self.0.len();
+        ModelSearcher { h, f: self.0, fi: 0, fpos: 0, fdone: false, bi: n, bpos: h.len(), bdone: false }
+    }
+}
+
+unsafe impl<'a> Searcher<'a> for ModelSearcher<'a> {
+    fn haystack(&self) -> &'a str {
+        self.h
+    }
+    fn next(&mut self) -> SearchStep {
+        if self.fdone {
+            return SearchStep::Done;
+        }
+        if let Some(&(a, b)) = self.f.get(self.fi) {
+            if self.fpos < a {
+                let r = SearchStep::Reject(self.fpos, a);
+                self.fpos = a;
+                return r;
+            }
+            self.fi += 1;
+            self.fpos = b;
+            return SearchStep::Match(a, b);
+        }
+        if self.fpos < self.h.len() {
+            let r = SearchStep::Reject(self.fpos, self.h.len());
+            self.fpos = self.h.len();
+            return r;
+        }
+        self.fdone = true;
+        SearchStep::Done
+    }
+}
+
+unsafe impl<'a> ReverseSearcher<'a> for ModelSearcher<'a> {
+    fn next_back(&mut self) -> SearchStep {
+        if self.bdone {
+            return SearchStep::Done;
+        }
+        if self.bi > 0 {
+            let (a, b) = self.f[self.bi - 1];
+            if b < self.bpos {
+                let r = SearchStep::Reject(b, self.bpos);
+                self.bpos = b;
+                return r;
+            }
+            self.bi -= 1;
+            self.bpos = a;
+            return SearchStep::Match(a, b);
+        }
+        if self.bpos > 0 {
+            let r = SearchStep::Reject(0, self.bpos);
+            self.bpos = 0;
+            return r;
+        }
+        self.bdone = true;
+        SearchStep::Done
+    }
+}
+
+/// Run one std consumer with a pattern and render the result.
+macro_rules! consume {
+    ($name:expr, $h:expr, $p:expr) => {{
+        let h: &str = $h;
+        match $name {
+            "find" => format!("{:?}", h.find($p)),
+            "contains" => format!("{:?}", h.contains($p)),
+            "matches" => format!("{:?}", h.matches($p).collect::<Vec<_>>()),
+            "match_indices" => format!("{:?}", h.match_indices($p).collect::<Vec<_>>()),
+            "split" => format!("{:?}", h.split($p).collect::<Vec<_>>()),
+            "splitn" => format!("{:?}", h.splitn(2, $p).collect::<Vec<_>>()),
+            "split_terminator" => format!("{:?}", h.split_terminator($p).collect::<Vec<_>>()),
+            "split_inclusive" => format!("{:?}", h.split_inclusive($p).collect::<Vec<_>>()),
+            "split_once" => format!("{:?}", h.split_once($p)),
+            "replace" => format!("{:?}", h.replace($p, "<>")),
+            "replacen" => format!("{:?}", h.replacen($p, "<>", 1)),
+            "starts_with" => format!("{:?}", h.starts_with($p)),
+            "strip_prefix" => format!("{:?}", h.strip_prefix($p)),
+            "trim_start_matches" => format!("{:?}", h.trim_start_matches($p)),
+            "rfind" => format!("{:?}", h.rfind($p)),
+            "rmatches" => format!("{:?}", h.rmatches($p).collect::<Vec<_>>()),
+            "rmatch_indices" => format!("{:?}", h.rmatch_indices($p).collect::<Vec<_>>()),
+            "rsplit" => format!("{:?}", h.rsplit($p).collect::<Vec<_>>()),
+            "rsplitn" => format!("{:?}", h.rsplitn(2, $p).collect::<Vec<_>>()),
+            "rsplit_terminator" => format!("{:?}", h.rsplit_terminator($p).collect::<Vec<_>>()),
+            "rsplit_once" => format!("{:?}", h.rsplit_once($p)),
+            "ends_with" => format!("{:?}", h.ends_with($p)),
+            "strip_suffix" => format!("{:?}", h.strip_suffix($p)),
+            "trim_end_matches" => format!("{:?}", h.trim_end_matches($p)),
+            _ => String::from("?"),
+        }
+    }};
+}
+
 // ------------------------------------------------------------------ world
 
 #[derive(Clone, Debug, PartialEq)]
@@ -66,7 +186,7 @@ impl SOp {
 
 const CONSUMERS: &[&str] = &[
     "find", "contains", "matches", "match_indices", "split", "splitn", "split_terminator", "split_inclusive", "replace", "replacen", "starts_with", "strip_prefix", "trim_start_matches",
-    "rfind", "rmatches", "rmatch_indices", "rsplit", "rsplitn", "rsplit_terminator", "ends_with", "strip_suffix", "trim_end_matches",
+    "rfind", "rmatches", "rmatch_indices", "rsplit", "rsplitn", "rsplit_terminator", "ends_with", "strip_suffix", "trim_end_matches", "split_once", "rsplit_once",
 ];
 
 #[derive(Clone, Debug, PartialEq)]
@@ -373,6 +493,15 @@ fn model_split<'a>(h: &'a str, f: &[(usize, usize)]) -> Vec<&'a str> {
 
 fn run_consumer(name: &str, re: &Regex, h: &str, f: &[(usize, usize)]) -> Option<(String, String)> {
     let fail = |exp: String, got: String| Some((format!("S-consumer-{}", name), format!("expected {} got {}", exp, got)));
+    // exact model: the same std consumer driven by the reference searcher
+    {
+        let got = consume!(name, h, re);
+        let exp = consume!(name, h, ModelPat(f.to_vec()));
+        if got != exp && got != "?" {
+            let cut = |s: &str| -> String { s.chars().take(160).collect() };
+            return fail(format!("{} (same std method over the reference searcher)", cut(&exp)), cut(&got));
+        }
+    }
     match name {
         "find" => {
             let got = h.find(re);
